@@ -25,7 +25,16 @@ from btclib.curves.sec_point import point_from_octets
 from btclib.descriptors import miniscript
 from btclib.ecc import bms, dsa, ecies, ssa
 from btclib.exceptions import BTClibException
+from btclib.p2p.address import Addr, NetworkAddress, TimestampedNetworkAddress
+from btclib.p2p.addrv2 import AddrV2, NetworkAddressV2, SendAddrV2
+from btclib.p2p.block_filters import BlockFilterType, CFCheckpt, CFHeaders, CFilter, GetCFCheckpt, GetCFHeaders, GetCFilters
+from btclib.p2p.compact_blocks import BlockTxn, CmpctBlock, GetBlockTxn, PrefilledTransaction, SendCmpct
+from btclib.p2p.data import BlockPayload, TxPayload
+from btclib.p2p.handshake import Verack, Version
+from btclib.p2p.inventory import GetBlocks, GetData, GetHeaders, Headers, Inv, Inventory, InventoryType, NotFound
+from btclib.p2p.keepalive import Ping, Pong
 from btclib.p2p.message import Message
+from btclib.p2p.negotiation import FeeFilter, GetAddr, Mempool, SendHeaders, WtxidRelay
 from btclib.psbt import psbt_utils
 from btclib.psbt.psbt import Psbt
 from btclib.psbt.psbt_in import PsbtIn
@@ -51,6 +60,16 @@ BINARY = {
     "Message.parse": Message.parse, "BIP32KeyData.parse": BIP32KeyData.parse, "BIP32KeyOrigin.parse": BIP32KeyOrigin.parse,
     "dsa.Sig.parse": dsa.Sig.parse, "dsa.Sig.parse(lax)": lambda b: dsa.Sig.parse(b, strict=False), "ssa.Sig.parse": ssa.Sig.parse, "bms.Sig.parse": bms.Sig.parse, "ecies.Envelope.parse": ecies.Envelope.parse,
     "point_from_octets": point_from_octets,
+    # the p2p payloads
+    "NetworkAddress.parse": NetworkAddress.parse, "TimestampedNetworkAddress.parse": TimestampedNetworkAddress.parse, "Addr.parse": Addr.parse,
+    "NetworkAddressV2.parse": NetworkAddressV2.parse, "AddrV2.parse": AddrV2.parse, "SendAddrV2.parse": SendAddrV2.parse, "GetAddr.parse": GetAddr.parse,
+    "Mempool.parse": Mempool.parse, "SendHeaders.parse": SendHeaders.parse, "WtxidRelay.parse": WtxidRelay.parse, "FeeFilter.parse": FeeFilter.parse,
+    "Version.parse": Version.parse, "Verack.parse": Verack.parse, "Ping.parse": Ping.parse, "Pong.parse": Pong.parse, "Inventory.parse": Inventory.parse,
+    "Inv.parse": Inv.parse, "GetData.parse": GetData.parse, "NotFound.parse": NotFound.parse, "GetBlocks.parse": GetBlocks.parse, "GetHeaders.parse": GetHeaders.parse,
+    "Headers.parse": Headers.parse, "GetCFilters.parse": GetCFilters.parse, "CFilter.parse": CFilter.parse, "GetCFHeaders.parse": GetCFHeaders.parse,
+    "CFHeaders.parse": CFHeaders.parse, "GetCFCheckpt.parse": GetCFCheckpt.parse, "CFCheckpt.parse": CFCheckpt.parse, "SendCmpct.parse": SendCmpct.parse,
+    "CmpctBlock.parse": CmpctBlock.parse, "PrefilledTransaction.parse": PrefilledTransaction.parse, "GetBlockTxn.parse": GetBlockTxn.parse, "BlockTxn.parse": BlockTxn.parse,
+    "TxPayload.parse": TxPayload.parse, "BlockPayload.parse": BlockPayload.parse,
 }
 TEXT = {
     "base58.decode": base58.decode, "bech32.decode": bech32.decode, "b32.witness_from_address": b32.witness_from_address,
@@ -227,7 +246,7 @@ def corpus():
     C["OutPoint.parse"] = [i.prev_out.serialize(check_validity=False) for t in tx_objs for i in t.vin][:3]
     C["Witness.parse"] = [i.script_witness.serialize(check_validity=False) for t in tx_objs for i in t.vin if i.script_witness.stack][:4] or [b"\x00"]
     C["script.parse"] = C["taproot.parse"] = [o.script_pub_key.script for t in tx_objs for o in t.vout][:6] + [i.script_sig for t in tx_objs for i in t.vin][:4]
-    C["var_int.parse"] = [b"\x01", b"\xfd\x00\x01", b"\xfe\x00\x00\x01\x00", b"\xff" + bytes(7) + b"\x01"]
+    C["var_int.parse"] = [b"\x01", b"\xfd\x00\x01", b"\xfe\x00\x00\x01\x00", b"\xff" + bytes(4) + b"\x01" + bytes(3)]
     C["var_bytes.parse"] = [b"\x03abc", b"\xfd\x00\x01" + bytes(256)]
     psbts = []
     for f in ("bip174", "bip370", "bip371", "bip373"):
@@ -245,6 +264,36 @@ def corpus():
     C["PsbtIn.parse"] = [i.serialize() for p in pobjs for i in p.inputs][:20]
     C["PsbtOut.parse"] = [o.serialize() for p in pobjs for o in p.outputs][:20]
     C["psbt_utils.deserialize_map"] = C["PsbtIn.parse"][:8]
+    # p2p payloads: captured messages (the ones tests/p2p replays) and objects built by the library's own constructors
+    hdr = blocks[0][:80]
+    bhash = hdr[4:36][::-1]
+    block1 = Block.parse(blocks[0])
+    C["Version.parse"] = [bytes.fromhex("62ea0000010000000000000011b2d05000000000010000000000000000000000000000000000ffff000000000000"
+                                        "010000000000000000000000000000000000ffff0000000000003b2eb35d8ce617650f2f5361746f7368693a302e372e322fc03e0300")]
+    C["Addr.parse"] = [bytes.fromhex("01e215104d010000000000000000000000000000000000ffff0a000001208d")]
+    C["TimestampedNetworkAddress.parse"] = [C["Addr.parse"][0][1:]]
+    C["NetworkAddress.parse"] = [C["Addr.parse"][0][5:]]
+    C["AddrV2.parse"] = [bytes.fromhex("0361bc6649000210000000000000000000000000000000010000796276830102100000000000000000000000000000000100f1"
+                                       "fffffffffd4804021000000000000000000000000000000001f1f2")]
+    C["NetworkAddressV2.parse"] = [C["AddrV2.parse"][0][1:26]]
+    C["Inv.parse"] = C["GetData.parse"] = C["NotFound.parse"] = [Inv([Inventory(InventoryType.MSG_BLOCK, bhash)]).serialize()]
+    C["Inventory.parse"] = [Inventory(InventoryType.MSG_BLOCK, bhash).serialize()]
+    C["Headers.parse"] = [b"\x01" + hdr + b"\x00", b"\x02" + hdr + b"\x00" + hdr + b"\x00"]
+    C["GetHeaders.parse"] = C["GetBlocks.parse"] = [(70016).to_bytes(4, "little") + b"\x01" + bhash[::-1] + bytes(32)]
+    C["CFilter.parse"] = [CFilter(BlockFilterType.BASIC, bhash, b"\x01\x02\x03").serialize()]
+    C["CFHeaders.parse"] = [CFHeaders(BlockFilterType.BASIC, bhash, bytes(32), [bhash]).serialize()]
+    C["CFCheckpt.parse"] = [b"\x00" + bhash[::-1] + b"\x01" + bytes(32)]
+    C["GetCFilters.parse"] = C["GetCFHeaders.parse"] = [b"\x00" + (5).to_bytes(4, "little") + bhash[::-1]]
+    C["GetCFCheckpt.parse"] = [b"\x00" + bhash[::-1]]
+    C["CmpctBlock.parse"] = [CmpctBlock(BlockHeader.parse(hdr), 1, [0x010203040506], [PrefilledTransaction(1, block1.transactions[0])]).serialize()]
+    C["PrefilledTransaction.parse"] = [PrefilledTransaction(1, block1.transactions[0]).serialize()]
+    C["GetBlockTxn.parse"] = [GetBlockTxn(bhash, [0, 2, 5]).serialize()]
+    C["BlockTxn.parse"] = [bhash[::-1] + b"\x01" + txs[0]]
+    C["TxPayload.parse"] = txs[:2]
+    C["BlockPayload.parse"] = blocks[:2]
+    C["Ping.parse"] = C["Pong.parse"] = [bytes(range(8))]
+    C["FeeFilter.parse"] = [(1000).to_bytes(8, "little")]
+    C["SendCmpct.parse"] = [b"\x01" + (2).to_bytes(8, "little")]
     C["Message.parse"] = [Message("f9beb4d9", "ping", bytes(8)).serialize(), Message("f9beb4d9", "verack", b"").serialize(), Message("f9beb4d9", "tx", txs[0]).serialize()]
     with open(_t("_data", "descriptor_checksums.json"), encoding="ascii") as fh:
         descs = [v["desc"] + "#" + v["checksum"] for v in json.load(fh)]
@@ -263,7 +312,8 @@ def corpus():
     C["bech32.decode"] = C["b32.witness_from_address"] = ["bc1qw508d6qejxtdg4y5r3zarvary0c5xw7kv8f3t4", "bc1p0xlxvlhemja6c4dqv22uapctqupfhlxm9h8z3k2e72q4k9hcz7vqzk5jj0",
                                                           "tb1qrp33g0q5c5txsp9arysrx4k6zdkfs4nce4xj0gdcccefvpysxf3q0sl5k7"]
     C["dsa.Sig.parse"] = C["dsa.Sig.parse(lax)"] = [bytes.fromhex("30440220421fbbedf2ee096d6289b99973509809d5e09589040d5e0d453133dd11b2f78a02205686dbdb57e0c44e49421e9400dd4e931f1655332e8d078260c9295ba959e05d")]
-    C["ssa.Sig.parse"] = [bytes(range(1, 65))]
+    from spec import bip340_ref
+    C["ssa.Sig.parse"] = [bip340_ref.sign(bytes(32), 7, bytes(32))]
     C["point_from_octets"] = [bytes.fromhex("0279be667ef9dcbbac55a06295ce870b07029bfcdb2dce28d959f2815b16f81798")]
     # JSON shapes, from the objects' own to_dict
     J = C.setdefault("json", {})
@@ -452,7 +502,7 @@ def _gen_hostile(rng):
 
 
 @contract("contracts.c_hostile.hostile", gen=_gen_hostile, props="C19", n_quick=4000, n_thorough=150000,
-          rule="structure-aware mutations (1..3 per input: any byte to a CompactSize/push-opcode boundary value, CompactSize prefixes spliced in, truncation, extension, slice duplication x50, deletion, zero runs; text: digit runs to 5000 digits, nesting 40..5000 deep, right-nested taproot trees, non-ASCII, case; JSON: every path dropped / retyped to 25 junk values / nested 900 deep) of the repository's vendored valid vectors (blocks 1, 170, a 5-tx cut of 481824; 44 BIP174/370/371/373 PSBTs; descriptor checksum and miniscript vectors; extended keys, addresses) x 29 binary, 12 text and 11 from_dict entry points; accepted objects handed to serialize / ids / sizes / to_dict / sighash / engine / block coinbase readers")
+          rule="structure-aware mutations (1..3 per input: any byte to a CompactSize/push-opcode boundary value, CompactSize prefixes spliced in, truncation, extension, slice duplication x50, deletion, zero runs; text: digit runs to 5000 digits, nesting 40..5000 deep, right-nested taproot trees, non-ASCII, case; JSON: every path dropped / retyped to 25 junk values / nested 900 deep) of the repository's vendored valid vectors (blocks 1, 170, a 5-tx cut of 481824; 44 BIP174/370/371/373 PSBTs; descriptor checksum and miniscript vectors; extended keys, addresses) x 64 binary (35 of them p2p payloads), 12 text and 11 from_dict entry points; accepted objects handed to serialize / ids / sizes / to_dict / sighash / engine / block coinbase readers")
 class HostileBounded:
     """returns an object every consumer takes, or raises one of the library's exceptions"""
 
